@@ -112,6 +112,16 @@ def check_net(ctx, net, inp, path, cid, text=False, want_attr=True,
         elif not np.allclose(got, W, rtol=tol, atol=0):
             ctx.violation(f"{path}:link_attribute!=input:{icls}",
                           {**case, "got": got, "want": W}, cid)
+        elif inp.get("W2") is not None and "buffers-reused" not in path:
+            ok, got = ctx.call(net.link_attribute, "w2")
+            ctx.count("second_attr_compared")
+            if not ok:
+                ctx.violation(f"{path}:second-link-attribute:raises:"
+                              f"{type(got).__name__}:{icls}",
+                              {**case, "exc": repr(got)}, cid)
+            elif not np.allclose(got, inp["W2"], rtol=tol, atol=0):
+                ctx.violation(f"{path}:second-link-attribute!=input:{icls}",
+                              {**case, "got": got, "want": inp["W2"]}, cid)
 
 
 def one_input(ctx, inp, cid, tmp, heavy=True):
@@ -135,9 +145,15 @@ def one_input(ctx, inp, cid, tmp, heavy=True):
         check_net(ctx, net, inp, path, cid, **kw)
         return net
 
+    W2 = inp.get("W2")
+
     def with_attr(net):
+        if W2 is not None:
+            net.set_link_attribute("a0", W2 * 3.0)
         if W is not None:
             net.set_link_attribute("w", W)
+        if W2 is not None:
+            net.set_link_attribute("w2", W2)
         return net
 
     mk = lambda a: with_attr(Network(adjacency=a, directed=d,  # noqa
@@ -196,6 +212,8 @@ def one_input(ctx, inp, cid, tmp, heavy=True):
             g.vs["node_weight_nsi"] = list(map(float, w))
         if W is not None:
             g.es["w"] = [float(W[e.tuple]) for e in g.es]
+        if W2 is not None:
+            g.es["w2"] = [float(W2[e.tuple]) for e in g.es]
         return Network.FromIGraph(g, silence_level=3)
     build("FromIGraph", ig)
     # the same links listed in another order and, when undirected, in either
@@ -218,6 +236,8 @@ def one_input(ctx, inp, cid, tmp, heavy=True):
             g.vs["node_weight_nsi"] = list(map(float, w))
         if W is not None:
             g.es["w"] = [float(W[e.tuple]) for e in g.es]
+        if W2 is not None:
+            g.es["w2"] = [float(W2[e.tuple]) for e in g.es]
         return Network.FromIGraph(g, silence_level=3)
     ign = build("FromIGraph[shuffled]", ig_s)
 
@@ -230,6 +250,8 @@ def one_input(ctx, inp, cid, tmp, heavy=True):
             g.vs["node_weight_nsi"] = list(map(float, w))
         if W is not None:
             g.es["w"] = [float(W[e.tuple]) for e in g.es]
+        if W2 is not None:
+            g.es["w2"] = [float(W2[e.tuple]) for e in g.es]
         first = Network.FromIGraph(g, silence_level=3)
         first.degree()
         return Network.FromIGraph(g, silence_level=3)
@@ -563,7 +585,14 @@ def run(ctx):
                 z = np.triu(z, 1)
                 z = z | z.T
             W = np.where(z, 0.0, W)
-        inp = {"A": A.astype(np.int8), "directed": d, "w": w, "W": W}
+        # half of the attributed networks carry further link attributes
+        # (one set before, one after "w"); they travel with the network too
+        W2 = None
+        if W is not None and A.any() and r.random() < 0.5:
+            W2 = (np.asarray(W) * -0.5 + 2.0) * (A != 0)
+            ctx.count("inputs_with_several_link_attributes")
+        inp = {"A": A.astype(np.int8), "directed": d, "w": w, "W": W,
+               "W2": W2}
         with ctx.guard(60):
             one_input(ctx, inp, cid, tmp,
                       heavy=(idx % 3 == 0) or cid.startswith(("rnd", "fam")))
